@@ -57,6 +57,9 @@ ImplAccept(f, t, a, n) ==
            d  == IF d0 > n THEN 2 * n - d0 ELSE d0
        IN d <= Tol2(f, t, n)
 
+\* band (AU) around arc ends inside which trace specs accept either verdict of the float code
+BandLim == 3
+
 \* A vector is accepted when every joint is.
 OnArcVec(fs, ts, as, n) == \A j \in DOMAIN as : OnArc(fs[j], ts[j], as[j], n)
 AmbiguousVec(fs, ts, n) == \E j \in DOMAIN fs : Ambiguous(fs[j], ts[j], n)
